@@ -2512,8 +2512,9 @@ func (e *CoreExtension) filterSpaceless(value interface{}, args ...interface{}) 
 		return "", nil
 	}
 
-	// Convert to string if not already
-	str := fmt.Sprintf("%v", value)
+	// Convert to string if not already (as every other string filter does:
+	// a computed number keeps its digits, 1000 * 1000 is not "1e+06")
+	str := toString(value)
 	if str == "" {
 		return "", nil
 	}
